@@ -1,6 +1,7 @@
 package props
 
 import (
+	"encoding/gob"
 	"encoding/json"
 	"fmt"
 	"io"
@@ -29,6 +30,18 @@ type recKey struct {
 
 func (a recKey) Less(b interface{}) bool { return a.Key < b.(recKey).Key }
 
+// regKey is an element type the application has registered with gob itself,
+// which morass.New documents as supported ("morass will use the existing
+// registration").
+type regKey struct {
+	Key    int
+	Serial int
+}
+
+func (a regKey) Less(b interface{}) bool { return a.Key < b.(regKey).Key }
+
+func init() { gob.Register(regKey{}) }
+
 // MCycle is one use cycle of a sorter.
 type MCycle struct {
 	Keys       []int `json:"keys"`
@@ -48,6 +61,13 @@ type MorassPlan struct {
 	// Tolerant: faults are being injected; errors end the script instead of
 	// being violations.
 	Tolerant bool `json:"tolerant,omitempty"`
+	// Prefix / DirName: the strings handed to ioutil.TempDir/TempFile ("" =
+	// the defaults "vm" and the scratch directory itself). Any legal file
+	// name is in the domain, glob metacharacters and blanks included.
+	Prefix  string `json:"prefix,omitempty"`
+	DirName string `json:"dir_name,omitempty"`
+	// Reg: use the element type the application has itself registered with gob.
+	Reg bool `json:"reg,omitempty"`
 }
 
 const morassWriterSite = "morass.go:"
@@ -64,6 +84,7 @@ type morassObs struct {
 	completed  bool // the script ran to its end
 	delivered  bool // every full drain delivered exactly the pushed multiset
 	parent     string
+	scratch    string
 	residueErr string
 	cycles     []cycleObs
 }
@@ -124,12 +145,28 @@ func morassClient(sim *simrt.Sim, pl *MorassPlan, obs *morassObs) {
 		fail("morass-error@"+op, "%s returned an error although no fault was injected: %v", op, err)
 		return true
 	}
-	obs.parent = scratchDir()
+	obs.scratch = scratchDir()
+	obs.parent = obs.scratch
 	var proto interface{} = intKey(0)
 	if pl.Struct {
 		proto = recKey{}
 	}
-	m, err := morass.New(proto, "vm", obs.parent, pl.Chunk, pl.Concurrent)
+	prefix := "vm"
+	if pl.Prefix != "" {
+		prefix = pl.Prefix
+	}
+	if pl.DirName != "" {
+		// residue is judged inside this directory, which holds only the sorter's
+		obs.parent = obs.parent + "/" + pl.DirName
+		if err := os.Mkdir(obs.parent, 0o755); err != nil {
+			sim.ToolErr = "scratch directory: " + err.Error()
+			return
+		}
+	}
+	if pl.Reg {
+		proto = regKey{}
+	}
+	m, err := morass.New(proto, prefix, obs.parent, pl.Chunk, pl.Concurrent)
 	if ioErr("New", err) {
 		return
 	}
@@ -141,6 +178,11 @@ func morassClient(sim *simrt.Sim, pl *MorassPlan, obs *morassObs) {
 	obs.delivered = true
 	serial := 0
 	stop := false
+	var (
+		dstInt intKey
+		dstRec recKey
+		dstReg regKey
+	)
 	for ci, cy := range pl.Cycles {
 		ci, cy := ci, cy
 		obs.cycles = append(obs.cycles, cycleObs{start: sim.Steps(), delivered: true})
@@ -150,7 +192,10 @@ func morassClient(sim *simrt.Sim, pl *MorassPlan, obs *morassObs) {
 			for i, k := range cy.Keys {
 				serial++
 				var e morass.LessInterface
-				if pl.Struct {
+				if pl.Reg {
+					e = regKey{Key: k, Serial: serial}
+					remaining[mvalue{k, serial}]++
+				} else if pl.Struct {
 					e = recKey{Key: k, Serial: serial, Payload: payloadFor(serial, pl.Payload)}
 					remaining[mvalue{k, serial}]++
 				} else {
@@ -213,14 +258,18 @@ func morassClient(sim *simrt.Sim, pl *MorassPlan, obs *morassObs) {
 				var key, ser int
 				var perr error
 				var pay []byte
-				if pl.Struct {
-					var v recKey
-					perr = m.Pull(&v)
-					key, ser, pay = v.Key, v.Serial, v.Payload
-				} else {
-					var v intKey
-					perr = m.Pull(&v)
-					key = int(v)
+				// one destination variable serves all pulls, as in a caller's
+				// read loop: Pull must overwrite whatever it holds
+				switch {
+				case pl.Reg:
+					perr = m.Pull(&dstReg)
+					key, ser = dstReg.Key, dstReg.Serial
+				case pl.Struct:
+					perr = m.Pull(&dstRec)
+					key, ser, pay = dstRec.Key, dstRec.Serial, dstRec.Payload
+				default:
+					perr = m.Pull(&dstInt)
+					key = int(dstInt)
 				}
 				if perr == io.EOF {
 					obs.delivered = false
@@ -256,7 +305,7 @@ func morassClient(sim *simrt.Sim, pl *MorassPlan, obs *morassObs) {
 						delete(remaining, mv)
 					}
 				}
-				if pl.Struct && !sameBytes(pay, payloadFor(ser, pl.Payload)) {
+				if pl.Struct && !pl.Reg && !sameBytes(pay, payloadFor(ser, pl.Payload)) {
 					obs.delivered = false
 					co.delivered = false
 					if !pl.Tolerant {
@@ -275,12 +324,13 @@ func morassClient(sim *simrt.Sim, pl *MorassPlan, obs *morassObs) {
 			if cy.Drain < 0 && !earlyEOF {
 				// exhaustion must be reported as io.EOF
 				var perr error
-				if pl.Struct {
-					var v recKey
-					perr = m.Pull(&v)
-				} else {
-					var v intKey
-					perr = m.Pull(&v)
+				switch {
+				case pl.Reg:
+					perr = m.Pull(&dstReg)
+				case pl.Struct:
+					perr = m.Pull(&dstRec)
+				default:
+					perr = m.Pull(&dstInt)
 				}
 				if perr == nil {
 					obs.delivered = false
@@ -428,8 +478,8 @@ func runMorass(t *testing.T, c *Case, o RunOpts) *Result {
 			}
 		}
 	})
-	if obs.parent != "" {
-		os.RemoveAll(obs.parent)
+	if obs.scratch != "" {
+		os.RemoveAll(obs.scratch)
 	}
 	return res
 }
@@ -439,11 +489,11 @@ func runMorass(t *testing.T, c *Case, o RunOpts) *Result {
 // later New/Push/Finalise/Pull, and a run in which no call reported an error
 // must have delivered exactly what was pushed.
 func faultOracle(sim *simrt.Sim, pl *MorassPlan, obs *morassObs) {
-	listed := map[string]bool{"tempdir": true, "tempfile": true, "encode": true, "sync": true, "seek": true, "decode": true}
+	listed := func(kind string) bool { return !simrt.Unfaultable(kind) }
 	if len(obs.cycles) == 0 {
 		// New failed (or nothing ran): the failure must have been reported
 		for i := range sim.Fired {
-			if listed[sim.Fired[i].Kind] && obs.sawError == nil {
+			if listed(sim.Fired[i].Kind) && obs.sawError == nil {
 				f := sim.Fired[i]
 				sim.Fail("oracle", "morass-hidden-fault@"+f.Kind, fmt.Sprintf("an injected %s failure at %s was never reported", f.Kind, f.Site))
 			}
@@ -454,7 +504,7 @@ func faultOracle(sim *simrt.Sim, pl *MorassPlan, obs *morassObs) {
 		var fired *simrt.IORecord
 		for i := range sim.Fired {
 			f := &sim.Fired[i]
-			if listed[f.Kind] && f.Step >= co.start && (f.Step <= co.end || ci == len(obs.cycles)-1) {
+			if listed(f.Kind) && f.Step >= co.start && (f.Step <= co.end || ci == len(obs.cycles)-1) {
 				fired = f
 				break
 			}
